@@ -4,6 +4,7 @@ from common import (C, field_writers, check_owners, short, local_refs, owner_mat
                     same_value_args)
 from cfg import path_leaf
 import effects
+import shared
 
 EXPLANATION = (
     "Energy-ledger rules evaluated over the CFG of every instantiation and over the "
@@ -117,6 +118,16 @@ def run(db, cx):
         cx, db, eff, "C01.1-orders", "reset_energy_deposition",
         [PSV + "::reset_energy_deposition", PSV + "::reset_energy_deposition_debug"],
         {"pre"}, "the per-step deposition is cleared only at pre-step")
+
+    # deposit_energy accumulates (+=): the per-step reset must happen for every track that can
+    # still deposit in this step, i.e. on every non-inactive path of pre-step
+    shared.prestep_scratch_reset(db, cx, "C01.1-deposit-reset")
+    for f in db.get(PSV + "::deposit_energy"):
+        ws = [ev for (_b, _i, ev) in f.writes(F_EDEP)]
+        ok = len(ws) == 1 and ws[0].get("op") == "+="
+        cx.ob("C01.1-deposit-reset", "deposit_energy accumulates into the step's deposition", ok,
+              "%s %s %s" % (ws[0].get("lhs"), ws[0].get("op"), ws[0].get("rhs")) if ws else "-",
+              short(f.loc))
 
     # ------------------------------------------- rule 2: deposit<->subtract pair
     n_inst = 0
